@@ -139,4 +139,63 @@ structure Reuse.Inv (s : Reuse) : Prop where
   holderFree : ∀ c, s.holder = some c → s.slot = none ∧ s.owed = none
   log : ∀ p ∈ s.log, p.1 = p.2
 
+/-! ### ownership of pooled reply buffers inside a function that hands a reply to its caller
+
+`udpWithFallback.ExchangeContext` receives pooled buffers from its two transports. The events on those buffers
+along one control-flow path of the function are regenerated from the source (`Gen.Facts.c01FallbackBufPaths`).
+`pool` is the free list as this call leaves it: a buffer that is in it can be handed to any reader by the next
+`GetBuf`, a buffer that is in it twice will be handed to two of them. Deferred releases run after the result
+has been fixed. -/
+
+inductive BufEv where
+  | got (v : Nat)            -- v, err := <exchange>
+  | lost (v : Nat)           -- the `err != nil` branch behind it: v is nil
+  | use (v : Nat)            -- v is read
+  | release (v : Nat)        -- pool.ReleaseBuf(v)
+  | deferRelease (v : Nat)   -- defer pool.ReleaseBuf(v)
+  | ret (v : Nat)            -- return v, ...
+  | retOther                 -- return nil / the result of another call
+  deriving DecidableEq, Repr
+
+def BufEv.ofCode : Nat × Nat → Option BufEv
+  | (0, v) => some (.got v) | (1, v) => some (.lost v) | (2, v) => some (.use v) | (3, v) => some (.release v)
+  | (4, v) => some (.deferRelease v) | (5, v) => some (.ret v) | (6, _) => some .retOther | _ => none
+
+structure Own where
+  pool : List Nat := []        -- buffers this call has put back into the free list
+  deferred : List Nat := []    -- releases that will run when the function returns
+  out : Option Nat := none     -- the buffer handed to the caller
+  stale : Bool := false        -- a buffer was read or handed out after it had gone back to the free list
+
+def Own.ev (s : Own) : BufEv → Own
+  | .got _ => s
+  | .lost _ => s
+  | .use v => { s with stale := s.stale || s.pool.contains v }
+  | .release v => { s with pool := v :: s.pool }
+  | .deferRelease v => { s with deferred := v :: s.deferred }
+  | .ret v => { s with out := some v, stale := s.stale || s.pool.contains v }
+  | .retOther => s
+
+/-- the function returns: the deferred releases run -/
+def Own.exit (s : Own) : Own := { s with pool := s.deferred ++ s.pool, deferred := [] }
+
+def runPath (p : List BufEv) : Own := (p.foldl Own.ev {}).exit
+
+def nodupB : List Nat → Bool
+  | [] => true
+  | x :: xs => !xs.contains x && nodupB xs
+
+/-- what the caller and every later user of the pool rely on: the reply handed to the caller is not in the
+free list (no reader can be given it while the caller looks at it), no buffer is in the free list twice, and
+nothing was read after it went back -/
+def Own.safe (s : Own) : Bool :=
+  nodupB s.pool && (match s.out with | some b => !s.pool.contains b | none => true) && !s.stale
+
+def decodePath (p : List (Nat × Nat)) : Option (List BufEv) := p.mapM BufEv.ofCode
+
+/-- every regenerated path decodes and leaves the pool safe -/
+def pathsSafe : Option (List (List (Nat × Nat))) → Bool
+  | none => false
+  | some ps => !ps.isEmpty && ps.all fun p => match decodePath p with | some es => (runPath es).safe | none => false
+
 end Model.C01
